@@ -1126,6 +1126,10 @@ def do_prune(ctx, rng, m, Ntrunc, t0b, idx):
     # energies of the kept states are preserved: GEVP on the pruned matrix
     if Ntrunc < 2:
         return
+    if t0b not in m.defined:
+        # (histories prune models built for another t0: a GEVP normalised on an undefined timeslice is not a request of the quantifier)
+        ctx.count('pruned_gevp_not_run_t0_undefined')
+        return
     vo = bool(idx % 3 == 0)
     sortb = str(rng.choice(['Eigenvalue', 'Eigenvector']))
     tsb = t0b + 1
